@@ -282,13 +282,11 @@ def run(rep, tier, only=None):
     sd = seed()
     for lang in langs:
         masks = list(itertools.product([False, True], repeat=n))
-        if tier == "quick":
-            masks = [m for i, m in enumerate(masks) if sum(m) in (0, 1, n) or (i + sd) % 16 == 0]
         for m in masks:
-            for cl, fl in (((0, 1), (1, 0), (1, 1), (2, 2)) if tier == "thorough" else ((0, 1), (1, 1), (1, 0))):
+            for cl, fl in (((0, 0), (0, 1), (1, 0), (1, 1), (2, 2), (0, 2), (2, 0), (1, 2), (2, 1)) if tier == "thorough" else ((0, 1), (1, 1), (1, 0))):
                 cases.append((lang, m, cl, fl))
-    rep.bounds = {"options": [o[0] for o in OPTIONS], "presence": "every subset on the command line (quick: none / each single / all + a seed-rotated sixteenth)",
-                  "values": "CLI and file values symbolic strings over [A-Za-z.] of length 0..2", "languages": langs,
+    rep.bounds = {"options": [o[0] for o in OPTIONS], "presence": "every subset of the seven options on the command line (all 128, both tiers)",
+                  "values": "CLI and file values symbolic strings over [A-Za-z.]; (CLI length, file length) in quick: (0,1),(1,1),(1,0); thorough: all of {0,1,2}^2", "languages": langs,
                   "store_config": "existing / missing target, explicit / default path", "find_configuration_file": "cwd depth 0..4, presence in every ancestor symbolic"}
     rep.outside = ["TOML serialisation / deserialisation (toml crate; not modelled) and therefore the -g round trip", "clap's argument parsing"]
     rep.assumptions = ["toml::to_string_pretty is a stub returning an opaque non-empty text", "Config / Args values are built directly (clap and toml are not executed)"]
